@@ -13,9 +13,11 @@ require (
 
 require (
 	github.com/mattn/go-isatty v0.0.20 // indirect
+	github.com/sourcegraph/jsonrpc2 v0.2.0 // indirect
 	go.etcd.io/bbolt v1.3.10 // indirect
 	golang.org/x/sync v0.8.0 // indirect
 	golang.org/x/sys v0.24.0 // indirect
+	pkg.nimblebun.works/go-lsp v1.1.0 // indirect
 )
 
 replace src.elv.sh => /repo
